@@ -45,7 +45,9 @@ Proof.
         apply forallb_Forall in Hs. rewrite Forall_forall in *. intros a Ha.
         apply (can_copy_no_labels a (r_env r) t0 C0). apply Hs; exact Ha.
       * right. cbn. right. apply in_or_app. right; exact Hx.
-    + assert (HF : Forall P es) by (rewrite Forall_forall; intros a _; apply (all_Q a)).
+    + replace (length es0 <? length es) with false by (symmetry; apply Nat.ltb_ge; lia).
+      rewrite andb_false_r.
+      assert (HF : Forall P es) by (rewrite Forall_forall; intros a _; apply (all_Q a)).
       destruct (copy_elems_good (fun a q m => dcf (r_env r) t0 a q m) (has_type (r_env r) t0) (prior_ok (r_env r) t0) es
                   (elems_premise _ _ _ HF Hs) (map Some es0) n ltac:(rewrite map_length; lia)
                   (Forall_map_Some _ (has_type (r_env r) t0) es0 (fun d Hd' => Hd') Hd1))
